@@ -72,6 +72,12 @@ func fdRun(fn *ssa.Function, spec *fdSpec, assign map[string]int64) []string {
 		if r, ok := p.env[v]; ok {
 			return r
 		}
+		if c, ok := v.(*ssa.Const); ok && c.IsNil() {
+			return fdVal{known: true, n: 0} // nil pointer / interface
+		}
+		if _, ok := v.(*ssa.Alloc); ok {
+			return fdVal{known: true, n: 1} // address of a variable: non-nil
+		}
 		if c, ok := v.(*ssa.Const); ok && c.Value != nil {
 			switch c.Value.Kind() {
 			case constant.Int:
@@ -88,6 +94,9 @@ func fdRun(fn *ssa.Function, spec *fdSpec, assign map[string]int64) []string {
 		}
 		if s := spec.Symbol(v); s != "" {
 			if n, ok := assign[s]; ok {
+				if strings.HasPrefix(s, "b:") {
+					return fdVal{known: true, isB: true, b: n != 0}
+				}
 				return fdVal{known: true, n: n}
 			}
 		}
